@@ -92,6 +92,8 @@ def run(ck, F):
     import c11
     c11.merge_rule_for(ck, F, 'C01')
     K.finish_partial(())
+    import c05 as _c05
+    _c05.const_handles(ck, F, 'C01', only=None)
     # the tables the types are unified in find what they hold only as long as they stay valid search trees: an entry cut off by a wrong rotation is
     # built a second time -- `same arguments, same node` then depends on what was requested in between
     import c08 as _c08
